@@ -266,6 +266,38 @@ def run(res: Results, idx: Index, tier: str) -> None:
     else:
         res.ok("R-C05e", f"{CTX}:{tdefs[0].stmt.lineno}", key, f"{len(tdefs)} definitions of the output's target type derive from _maybe_dtype(aval of the output variable) or keep the produced type", fout.qualname)
 
+    # sibling agreement: every creator of a graph input value maps the aval dtype through the float-policy mapper with the
+    # export's precision flag (`_dtype_to_ir(dtype, <flag>)`), as add_input_for_invar does
+    cg_sites = []
+    for mod in idx.product_modules():
+        if not mod.rel.startswith("jax2onnx/converter/"):
+            continue
+        for fi in mod.funcs.values():
+            adds = [c for c in walk_no_nested(fi.node) if isinstance(c, ast.Call) and (call_name(c) or "").endswith("add_graph_input_value") and c.args and isinstance(c.args[0], ast.Name)]
+            if not adds:
+                continue
+            du_f = defuse(fi.node)
+            for a in adds:
+                for v in du_f.values(a.args[0].id):
+                    if isinstance(v, ast.Call) and (call_name(v) or "") in ("ir.Value", "ir.val"):
+                        cg_sites.append((mod, fi, v))
+    for mod, fi, v in cg_sites:
+        kw = next((k.value for k in v.keywords if k.arg == "type"), None)
+        key = f"{mod.rel}::{fi.qualname}::graph-input-type-policy"
+        site = f"{mod.rel}:{v.lineno}"
+        if kw is None:
+            continue
+        du_f = defuse(fi.node)
+        exprs = [kw] + [x for nm in du_f.closure(names_in(kw)) for x in du_f.values(nm)]
+        mappers = {(call_name(c) or "").split(".")[-1] for e in exprs for c in ast.walk(e) if isinstance(c, ast.Call)} & {"_dtype_to_ir", "numpy_dtype_to_ir_with_float_policy", "_to_ir_dtype_from_np", "numpy_dtype_to_ir"}
+        policy = mappers & {"_dtype_to_ir", "numpy_dtype_to_ir_with_float_policy"}
+        if policy:
+            res.ok("R-C05e", site, key, f"graph input typed through {sorted(policy)[0]}(dtype, precision flag)", fi.qualname)
+        elif mappers:
+            res.violation("R-C05e", site, key, f"the graph input is typed through {sorted(mappers)[0]}(), which ignores enable_double_precision and maps every narrow float to FLOAT; plain inputs use _dtype_to_ir(dtype, flag), so the same argument is declared with a different element type depending on the layout flag", fi.qualname)
+        else:
+            res.unresolved("R-C05e", site, key, f"type expression `{src(kw, 50)}` uses no known dtype mapper", fi.qualname)
+
     # ---- R-C05d: the optimizer's annotation refresh can land on a value that is (or is re-routed to) a graph output,
     # so the declared element type / shape of the interface depends on it: the refresh rules of C08 are re-decided here
     if not getattr(res, "_nested_xref", False):
